@@ -36,17 +36,17 @@ func checkC04(c *Ctx) {
 	// long random histories, full alphabet
 	c.runStoreGen(&StoreGen{Kinds: exact2, Keys: []int{0, 1, 2, 3, 4}, Q: 4, Weights: []int{0, 1, 2, 4, 8, 12},
 		Factors: [][2]int{{1, 4}, {1, 2}, {2, 1}, {3, 1}}, Repeats: []int{33, 70}, Ops: opsC04, Depth: c.pick(16, 24),
-		Simulate: true, Num: c.pick(3000, 100000)}, c.pick(8, 16), "simulated long histories")
+		Simulate: true, Num: c.pick(3000, 40000)}, c.pick(8, 16), "simulated long histories")
 	// direction B: recorded executions of the real stores validated by TLC
-	c.runStoreTraces(c.pick(24, 200), traceGenOpts{Events: c.pick(400, 2000), Kinds: []string{"dense", "sparse", "paged"},
+	c.runStoreTraces(c.pick(24, 100), traceGenOpts{Events: c.pick(400, 2000), Kinds: []string{"dense", "sparse", "paged"},
 		Ops: []string{"Add", "Add", "AddWithCount", "AddWithCount", "AddBin", "AddRepeat", "Merge", "CopyTo", "Clear", "Reweight", "EncDec", "Proto", "Read"}}, "non-collapsing stores")
 	// the same kind of recording, narrower index clusters, additionally validated at array level (DenseImpl.tla, real overhead 64)
-	c.runStoreTraces(c.pick(12, 100), traceGenOpts{Layout: true, MaxWidth: 60, Events: c.pick(300, 1500), Kinds: []string{"dense", "dense", "sparse", "paged"},
+	c.runStoreTraces(c.pick(12, 50), traceGenOpts{Layout: true, MaxWidth: 60, Events: c.pick(300, 1500), Kinds: []string{"dense", "dense", "sparse", "paged"},
 		Ops: []string{"Add", "AddWithCount", "AddBin", "AddRepeat", "Merge", "CopyTo", "Clear", "Reweight", "EncDec", "Proto", "Read"}}, "dense stores, array layout")
 	// paginated stores only: the whole history stays tracked by PagedImpl.tla (buffer, capacity, compaction trigger, page
 	// slice, allocated pages, minPageIndex) with the real constants, through bulk adds, same-kind merges and decodes of a
 	// paginated store's own encoding too (Go's append policy is modelled as PagedImpl!GoCap and checked against every
 	// logged capacity)
-	c.runStoreTraces(c.pick(8, 60), traceGenOpts{Layout: true, MaxWidth: 60, Events: c.pick(700, 3000), Kinds: []string{"paged"},
+	c.runStoreTraces(c.pick(8, 30), traceGenOpts{Layout: true, MaxWidth: 60, Events: c.pick(700, 3000), Kinds: []string{"paged"},
 		Ops: []string{"Add", "Add", "Add", "Add", "Add", "Add", "Add", "Add", "AddWithCount", "AddBin", "AddRepeat", "AddRepeat", "Merge", "EncDec", "CopyTo", "Clear", "Reweight", "Read"}}, "paginated stores, page layout")
 }
